@@ -70,8 +70,22 @@ pub struct Opts {
 }
 
 pub fn safe_execute<E: Engine>(e: &E, case: &E::Case) -> CaseResult {
+    let _ = crate::libeval::digest_take();
     match catch_unwind(AssertUnwindSafe(|| e.execute(case))) {
-        Ok(r) => r,
+        Ok(mut r) => {
+            if r.stats.digest == 0 {
+                for v in &r.violations {
+                    crate::libeval::digest_mix(format!("{v:?}").as_bytes());
+                }
+                for h in &r.harness {
+                    crate::libeval::digest_mix(h.as_bytes());
+                }
+                crate::libeval::digest_mix(r.stats.trace.join("|").as_bytes());
+                crate::libeval::digest_mix(format!("{:?}", r.stats.counters).as_bytes());
+                r.stats.digest = crate::libeval::digest_take();
+            }
+            r
+        }
         Err(p) => {
             let msg = if let Some(s) = p.downcast_ref::<String>() {
                 s.clone()
@@ -171,6 +185,30 @@ pub fn write_replay<E: Engine>(
 
 pub struct Summary {
     pub exit_code: i32,
+}
+
+/// per-run digests (every library result, token byte string, event and counter of the run):
+/// the determinism proof compares them across repetitions, worker counts and processes
+pub fn digests<E: Engine>(e: &E, seed: u64, runs: usize, threads: usize) -> Vec<(u64, u64)> {
+    let next = AtomicUsize::new(0);
+    let out: Mutex<Vec<(u64, u64)>> = Mutex::new(vec![(0, 0); runs]);
+    std::thread::scope(|s| {
+        for _ in 0..threads.max(1) {
+            s.spawn(|| loop {
+                let i = next.fetch_add(1, Ordering::SeqCst);
+                if i >= runs {
+                    break;
+                }
+                let run_seed = mix(seed, i as u64);
+                let case = e.generate(run_seed);
+                // the case itself is part of what must be reproducible
+                let case_digest = fnv(serde_json::to_string(&case).unwrap_or_default().as_bytes());
+                let r = safe_execute(e, &case);
+                out.lock().unwrap()[i] = (run_seed, mix(case_digest, r.stats.digest));
+            });
+        }
+    });
+    out.into_inner().unwrap()
 }
 
 pub fn run_check<E: Engine>(e: &E, opts: &Opts) -> Summary {
